@@ -28,6 +28,13 @@ LEVEL_NOTE = "Holds for the shapes enumerated (full small grid) and sampled; tru
 TECHNIQUE = "runtime monitoring: ground-truth-by-construction oracle (cells encode their coordinates) over a full shape grid and random shapes"
 
 
+def curve_name(case, j, d):
+    """Declared mnemonic of curve j: K<j>, or - with 'digitnames' - a bare number that is the *position of another curve*."""
+    if case.get("digitnames") and d > 1:
+        return str((j + 1) % d)
+    return "K%d" % j
+
+
 def cellv(i, j, neg=False):
     return ("-" if neg and j == 1 else "") + "%d.%03d" % (i + 1, j + 1)
 
@@ -53,6 +60,13 @@ def grid(tier):
                     for neg in (False, True):
                         yield {"d": d, "c": c, "r": r, "engine": "numpy" if (d or 0) % 2 else "normal", "wrap": None, "noise": None, "after": r == 3,
                                "dlm": dlm, "neg": neg}
+    for d in (2, 3, 4, 6):                   # curves named with bare numbers that are positions of other curves
+        for c in (d - 1, d, d + 1):
+            for engine in ("numpy", "normal"):
+                for mc_wrap in (None, d):
+                    if mc_wrap and c != d:
+                        continue
+                    yield {"d": d, "c": c, "r": 3, "engine": engine, "wrap": mc_wrap, "noise": None, "after": False, "digitnames": True}
     for r in (19, 20, 21, 22, 23):           # around the sniffing window of 21 data lines
         for d, c in ((3, 3), (2, 4), (5, 3), (None, 2)):
             for engine in ("numpy", "normal"):
@@ -78,7 +92,7 @@ def random_case(rng, tier):
     return {"d": d, "c": c, "r": r, "engine": rng.choice(["numpy", "normal"]), "wrap": wrap,
             "noise": rng.choice([None, None, "blank", "comment"]) if wrap is None else None,
             "after": rng.random() < 0.3, "dlm": rng.choice([None, None, "COMMA", "TAB", "COMMA_PADDED"]) if wrap is None else None,
-            "neg": rng.random() < 0.3}
+            "neg": rng.random() < 0.3, "digitnames": rng.random() < 0.15}
 
 
 def build(case):
@@ -91,7 +105,7 @@ def build(case):
     else:
         for s in secs:
             if s["kind"] == "C":
-                s["items"] = [["K%d" % j, "U%d" % j, "", "tag%d" % j] for j in range(d)]
+                s["items"] = [[curve_name(case, j, d), "U%d" % j, "", "tag%d" % j] for j in range(d)]
     rows = [[cellv(i, j, neg) for j in range(c)] for i in range(r)]
     noise = {}
     if case["noise"] == "blank":
@@ -147,9 +161,9 @@ def run_case(case, ctx):
         V("curve-count:" + tag, "%d curves after read, expected max(declared %d, columns %d)" % (len(curves), dd, c), detail)
     for j, cu in enumerate(curves[:want_n]):
         if j < dd:
-            if (cu.original_mnemonic, cu.unit, cu.descr) != ("K%d" % j, "U%d" % j, "tag%d" % j):
-                V("declared-curve-metadata-moved:" + tag, "curve #%d is (%r,%r,%r), declared (K%d,U%d,tag%d)" % (
-                    j, cu.original_mnemonic, cu.unit, cu.descr, j, j, j), detail)
+            if (cu.original_mnemonic, cu.unit, cu.descr) != (curve_name(case, j, dd), "U%d" % j, "tag%d" % j):
+                V("declared-curve-metadata-moved:" + tag, "curve #%d is (%r,%r,%r), declared (%s,U%d,tag%d)" % (
+                    j, cu.original_mnemonic, cu.unit, cu.descr, curve_name(case, j, dd), j, j), detail)
         else:
             ctx.count("unnamed_extra_curves_checked")
             if cu.original_mnemonic != "" or not cu.mnemonic.startswith("UNKNOWN"):
@@ -167,7 +181,7 @@ def run_case(case, ctx):
                 V("missing-column-not-nan-filled:" + tag, "declared curve #%d without a column holds %s, expected %d NaN" % (j, _a(data), r), detail)
     if case.get("dlm"):
         ctx.count("cases_declared_delimiter")
-    ctx.case_done([d, c, "r1" if r == 1 else "r2-5" if r <= 5 else "r>5", case["engine"], case["wrap"], case["noise"], case["after"], case.get("dlm"), case.get("neg")],
+    ctx.case_done([d, c, "r1" if r == 1 else "r2-5" if r <= 5 else "r>5", case["engine"], case["wrap"], case["noise"], case["after"], case.get("dlm"), case.get("neg"), case.get("digitnames")],
                   nontrivial=r * c >= 2)
     if case["wrap"] or rel != "eq":
         ctx.sample({"case": case, "text": text, "keys": las.keys()}, limit=4)
